@@ -38,6 +38,9 @@ def correspondence(ctx):
         cases.append(f'rules|nick|addmap|{h_}')
         cases.append(f'rules|op|addmap|{h_}')
         cases.append(f'finddis|{h_}')
+    for s_ in structured_strings(ctx, 800 if ctx.tier == 'quick' else 10000, ['filler_ascii', 'filler_2', 'filler_3', 'filler_4', 'space', 'space', 'space', 'bad', 'wide', 'marks']):
+        cases.append(f'rules|nick|addmap|{hexs(s_)}')
+        cases.append(f'rules|op|addmap|{hexs(s_)}')
     cases += fuzz_cases(ctx, {7})      # coverage-guided search of the tree under check (only when the source changed / thorough)
     res = run_cases(cases, ctx.work)
     zset = set(zs)
